@@ -1381,6 +1381,13 @@ Proof.
   - apply wp_panic. apply inv_post_refl; auto.
 Qed.
 
+Lemma keeps_op_default {V} (E : env key V query cstate) body :
+  keeps (replace_with E (ret tt) body).
+Proof.
+  intros w Hw. apply replace_build_at; [exact Hw|]. intros w0 Hw0 _ _.
+  apply wp_ret. apply inv_post_refl; auto.
+Qed.
+
 Lemma op_clone_at {V} (E : env key V query cstate) (src : map key V) (w : world key V cstate) :
   WF src -> WF (self w) -> cap src = cap (self w) ->
   wp (replace_with E (clone_from_src E src) []) (fun _ => inv_post w) (inv_post w) w.
@@ -1743,6 +1750,16 @@ Proof.
   - (* SSub *) via_s_at Hx. apply op_sub_at; apply WFx_get_s; exact Hx.
   - (* SFormat *) via_s Hx. apply keeps_format_s.
   - (* SSerde *) via_s Hx. apply keeps_op_finally. apply keeps_visit_seq.
+  - (* OCloneFrom *)
+    destruct (Nat.eqb_spec (cap (get_m r x)) (cap (get_m r' x))) as [Heq|Hne].
+    + via_m_at Hx. apply op_clone_at; [apply WFx_get_m; exact Hx | apply WFx_get_m; exact Hx | exact Heq].
+    + cbn [fst snd]. apply safe_step_same; [exact Hx | discriminate].
+  - (* SCloneFrom *)
+    destruct (Nat.eqb_spec (cap (get_s r x)) (cap (get_s r' x))) as [Heq|Hne].
+    + via_s_at Hx. apply op_clone_at; [apply WFx_get_s; exact Hx | apply WFx_get_s; exact Hx | exact Heq].
+    + cbn [fst snd]. apply safe_step_same; [exact Hx | discriminate].
+  - (* ODefault *) via_m Hx. apply keeps_op_default.
+  - (* SDefault *) via_s Hx. apply keeps_op_default.
   - (* OIterNth *) via_m Hx. apply keeps_iter_nth_session.
   - (* ODrainNth *) via_m Hx. apply keeps_drain_nth_session.
   - (* OIntoNth *) via_m Hx.
